@@ -76,6 +76,9 @@ func (x *Exec) step(f *frame, in ssa.Instruction) {
 			// the defer statement must have executed on this path; conditional defers are
 			// supported only when the deferring block dominates the return block
 			if !d.Block().Dominates(in.Block()) {
+				if !blockReaches(d.Block(), in.Block()) {
+					continue // this return is on a path that never executed the defer statement
+				}
 				x.abstract("conditionally executed defer (treated as havoc)")
 				x.havocHeapAll(st)
 				continue
@@ -618,6 +621,13 @@ func (x *Exec) appendCall(f *frame, in ssa.Value, c *ssa.CallCommon, args []Val)
 	}
 	cn, srt := x.elemComp(et)
 	h := x.heapGet(st, cn, srt)
+	if sl1, ok := c.Args[1].(*ssa.Slice); ok && sl1.Low == nil && sl1.High == nil {
+		if al, ok := sl1.X.(*ssa.Alloc); ok {
+			if arr, ok := deref(al.Type()).Underlying().(*types.Array); ok && arr.Len() == 1 {
+				return x.appendOne(f, in, args, et, cn, srt, h)
+			}
+		}
+	}
 	n := sx("sllen", a)
 	ln := sx("sllen", s)
 	fits := sx("<=", sx("+", ln, n), sx("scap", s))
